@@ -29,11 +29,14 @@ def srcCfg (modern : Bool) (try_ : List Nat) : Cfg :=
                  !Gate.Gen.C16.internalConnectCalls.contains "c.player.setInFlightConnection",
     foreignReset := Gate.Gen.C16.connectCalls.contains "c.player.resetInFlightConnection",
     -- handleJoinGame unlocks the player lock on both branches of `existingConn != nil` iff the lookup is unconditional
-    joinBySnapshot := (Gate.Gen.C16.handleJoinGameCalls.filter (· == "b.serverConn.player.mu.Unlock")).length < 2 }
+    joinBySnapshot := (Gate.Gen.C16.handleJoinGameCalls.filter (· == "b.serverConn.player.mu.Unlock")).length < 2,
+    -- does the transition handler's deadline watcher still close the connection
+    watcherCloses := Gate.Gen.C16.transitionActivatedCalls.contains "b.serverConn.disconnect" }
 
 def behOfString : String → Option Beh
   | "a" => some .accept | "r" => some .refuse | "kl" => some .kickLogin | "el" => some .eofLogin
   | "kc" => some .kickConfig | "kt" => some .kickTrans | "et" => some .eofTrans | "enc" => some .enc
+  | "late" => some .lateJoin
   | _ => none
 
 def parseBeh (t : String) : Option (Beh × Bool) :=
@@ -72,7 +75,7 @@ def optS (o : Option Nat) : String := match o with | some n => toString n | none
 def key (s : St) : String :=
   let cs := (range s.nconns).map fun c =>
     let C := s.conns c
-    s!"{C.server}/{repr C.beh}/{C.stalled}/{repr C.phase}/{repr C.h}/{optS C.jold}/{C.completedJoin}/{repr C.result}/{optS C.prev}"
+    s!"{C.server}/{repr C.beh}/{C.stalled}/{repr C.phase}/{repr C.h}/{optS C.jold}/{C.completedJoin}/{repr C.result}/{optS C.prev}/{s.expired c}/{s.timed c}"
   let ts := (range s.ntasks).map fun i =>
     let T := s.tasks i
     s!"{repr T.pc}/{repr T.mode}/{T.orig}/{T.dest}/{repr T.ev}/{optS T.conn}/{repr T.res}/{optS T.prev}/{T.tag}"
@@ -81,7 +84,9 @@ def key (s : St) : String :=
 
 /-- a kept request object moves only when the harness calls Connect on it -/
 def internalActs (s : St) : List Act :=
-  ((range s.ntasks).filter fun i => (s.tasks i).pc != .created).map Act.task ++ (range s.nconns).map Act.back
+  ((range s.ntasks).filter fun i => (s.tasks i).pc != .created).map Act.task ++ (range s.nconns).map Act.back ++
+  -- the deadline of a request issued with a short deadline may expire at any moment; watchers run when enabled
+  ((range s.nconns).filter fun c => s.timed c && !s.expired c).map Act.deadline ++ (range s.nconns).map Act.watch
 
 /-- Partial-order reduction.  A step is *safe* when it touches only its goroutine's own record (or a write-once
     field nobody else writes) and commutes with every step of every other goroutine: the request-local steps
@@ -220,6 +225,7 @@ def judge (d : DS) (op : String) (args : List String) (impl : String) (mp : Nat)
   | none =>
     let (op, args) := match op, args with
       | "conn", [_, dst] => ("req", [dst])     -- Connect on a kept request object is judged like any request
+      | "tconn", [dst] => ("req", [dst])       -- … and so is a request with a short deadline
       | o, a => (o, a)
     match op, args, ws with
     | "req", [dst], r :: _ =>
@@ -252,8 +258,11 @@ def judge (d : DS) (op : String) (args : List String) (impl : String) (mp : Nat)
     | "drop", _, _ =>
       if d.outstanding > 0 && o.cur ≠ "-" && o.cur ≠ prev.cur then "viol:kick-redirect-while-in-flight" else "ok"
     | "release", _, r :: _ =>
-      -- the released request(s) complete; a success must leave the player on some server consistently (checked above)
-      if r.contains "ok" && o.cur = "-" then "viol:not-on-destination" else "ok"
+      -- the released request(s) complete; a success must leave the player on some server consistently (checked above);
+      -- if NO request was outstanding, a backend that speaks now belongs to a request that has already reported
+      -- failure: its late JoinGame must be ignored
+      if d.outstanding = 0 && d.orphaned = 0 && o.cur ≠ prev.cur then "viol:late-join-after-failed-request"
+      else if r.contains "ok" && o.cur = "-" then "viol:not-on-destination" else "ok"
     | _, _, _ => "ok"
 
 /-- the implementation's output without the backend-side `mp=` token (judged by the spec only), and that token's value -/
@@ -306,6 +315,11 @@ def stepDriver (d : DS) (c0 : Case) : DS × String × String :=
           fun (s, ids) => (taskRes s ids.getLast! ++ " " ++ observe s, (s, ids.dropLast)))
       | "req", [dst] =>
         some (fun s ids => let (s', i) := spawnPlain s (srvOf dst); some (s', ids ++ [i]),
+          fun (s, ids) => (taskRes s ids.getLast! ++ " " ++ observe s, (s, ids.dropLast)))
+      | "tconn", [dst] =>     -- Connect with a short deadline: it expires at some point of the attempt
+        some (fun s ids =>
+          let (s', i) := spawnPlain s (srvOf dst)
+          some ({ s' with tasks := upd s'.tasks i { s'.tasks i with timed := true } }, ids ++ [i]),
           fun (s, ids) => (taskRes s ids.getLast! ++ " " ++ observe s, (s, ids.dropLast)))
       | "start", [dst] =>
         some (fun s ids => let (s', i) := spawnPlain s (srvOf dst); some (s', ids ++ [i]),
